@@ -313,3 +313,58 @@ def flushfirst(ctx):
                 res.ok({"function": f.path, "move": what, "line": line}, nontrivial=True)
     res.floor("window moves", n, ctx.table("floors").get("window_moves", 0))
     return res
+
+
+def posdim(ctx):
+    """R-POSDIM: stream positions and buffer-relative offsets are different dimensions.
+    Every value stored into Stream.buf_offset_from_start / Stream.total_len must be a stream
+    position: built from the old window offset plus a buffer-relative amount, from
+    current_position(), or from a validated absolute target - never a bare buffer cursor."""
+    import re
+    from prov import Prov
+    res = RuleResult("R-POSDIM", "a value stored as window offset or stream length is a stream position (old offset + buffer-relative amount, current_position(), or a validated absolute target), never a bare buffer-relative quantity")
+    BUFREL = r"StreamBuffer::(cursor|filled_len)\("
+    POS = r"param:self\.buf_offset_from_start|Stream::current_position\("
+    n = 0
+    for f in _stream_methods(ctx):
+        v = view(ctx, f)
+        pr = Prov(f)
+        for field in ("buf_offset_from_start", "total_len"):
+            for node in v.stores_to_field(field, STREAM):
+                st = f.blocks[node[1]]["stmts"][node[2]]
+                val = pr._def((node[1], node[2], st), 0, ())
+                vals = [val]
+                m = re.match(r"^var:(\w+)$", val)
+                if m:
+                    # a multiply-defined variable: look at each definition
+                    names = {nm: l for l, nm in f.debug_names().items()}
+                    l = names.get(m.group(1))
+                    if l is not None:
+                        vals = [pr._def(d, 1, (l,)) for d in pr.defs.get(l, [])]
+                n += 1
+                bad = []
+                for x in vals:
+                    if re.search(BUFREL, x) and not re.search(POS, x):
+                        bad.append(x)
+                    elif re.match(r"^const:\d+$", x) and x != "const:0":
+                        bad.append(x)
+                key = "R-POSDIM/%s/%s" % (f.path, field)
+                if bad:
+                    res.fail(Finding("R-POSDIM", key + "/buffer-relative-value-stored-as-position",
+                                     "Stream.%s receives %s: a buffer-relative amount (cursor / filled length) without the window offset it is relative to" % (field, bad[0][:120]), f, st["span"]))
+                else:
+                    res.ok({"function": f.path, "field": field, "value": [x[:100] for x in vals][:3]}, nontrivial=True)
+        if f.d["name"] == "current_position":
+            n += 1
+            rets = []
+            for bb, blk in enumerate(f.blocks):
+                for i, st in enumerate(blk["stmts"]):
+                    if st["s"] == "assign" and st["place"]["local"] == 0 and not st["place"]["proj"]:
+                        rets.append(pr._def((bb, i, st), 0, ()))
+            ok = all(re.search(r"param:self\.buf_offset_from_start", r) and re.search(BUFREL, r) and r.startswith("Add(") for r in rets) and rets
+            if ok:
+                res.ok({"function": f.path, "returns": rets[0][:100]}, nontrivial=True)
+            else:
+                res.fail(Finding("R-POSDIM", "R-POSDIM/%s/position-formula" % f.path, "current_position() no longer returns window offset + cursor (%s)" % "; ".join(r[:80] for r in rets), f))
+    res.floor("position stores", n, ctx.table("floors").get("posdim_sites", 0))
+    return res
